@@ -280,12 +280,16 @@ func (f *file) Close() error {
 		return io.EOF
 	}
 
-	if err := f.ioc.UnsetReadWrite(&f.slot); err != nil {
-		return err
-	}
+	// The descriptor is released whatever the poller answers: when the removal fails (the IO was closed first, or the
+	// poller no longer knows the descriptor) returning early would leak it for good, since every later Close is a
+	// no-op. The failure is still reported.
+	err := f.ioc.UnsetReadWrite(&f.slot)
 	f.ioc.Deregister(&f.slot)
 
-	return syscall.Close(f.slot.Fd)
+	if closeErr := syscall.Close(f.slot.Fd); err == nil {
+		err = closeErr
+	}
+	return err
 }
 
 func (f *file) Closed() bool {
